@@ -673,10 +673,26 @@ class IfaceExecutor(X.UnitsExecutor):
             out = []
             for (s, v) in self.ev(n.value, st):
                 items = self.concrete_items(s, v)
-                if items is None:
-                    raise Unsupported(f"{self.loc(n)} yield from a symbolic iterable")
-                s.yielded = s.yielded + list(items)
                 chk = getattr(self.contract, "yield_check", None)
+                if items is None:
+                    # round 8: `yield from xs` over a symbolic-length list (= `for x in xs: yield x`): the yield obligation for an
+                    # arbitrary element xs[j], 0 <= j < len(xs), on a fork (the continuing path keeps the empty case)
+                    try:
+                        view = self.seq_view(s, v) if isinstance(v, (VRef, VSeq)) else None
+                    except Unsupported:
+                        view = None
+                    if view is None:
+                        raise Unsupported(f"{self.loc(n)} yield from a symbolic iterable")
+                    length, elem = view
+                    j = z3.Int(fresh_name("yf"))
+                    s2 = s.fork().assume(z3.And(j >= 0, j < length))
+                    s.ghost["yield_count_unknown"] = True
+                    if chk is not None and self.inline_depth == 0:
+                        goal, note = chk(self, s2, elem(j))
+                        self.add_vc("yields", getattr(self.contract, "yield_label", "element-kind"), s2.pc, goal, note=note, loc=self.loc(n))
+                    out.append((s, NONE))
+                    continue
+                s.yielded = s.yielded + list(items)
                 for v in items:
                     if chk is not None and self.inline_depth == 0:
                         goal, note = chk(self, s, v)
@@ -759,13 +775,45 @@ class IfaceExecutor(X.UnitsExecutor):
             return v.length, v.elem
         return None
 
+    def comp_value(self, st, v, node):
+        """Round 8: a comprehension whose element expression is itself a list display / list comprehension builds one NEW list
+        per element (nothing else refers to it): its value is the row as a pure sequence (length + cells), not an opaque
+        reference -- `[[r.get(h) for h in headers] for r in records]` is a sequence of rows like the one a loop appends."""
+        if isinstance(v, VRef) and isinstance(getattr(node, "elt", None), (ast.List, ast.ListComp)):
+            view = self._list_view(st, v)
+            if view is not None:
+                return VSeq(view[0], view[1], "unk", tag=("row", "comp", ""))
+        return super().comp_value(st, v, node)
+
+    def _row_of(self, st, v):
+        """a list-like element of a table as a pure row (length known, cells unknown), else None"""
+        if isinstance(v, VSeq) and not v.is_bytes:
+            return v
+        if isinstance(v, VRef) and st.heap.get(v.ref) is not None and st.obj(v.ref).kind in ("alist", "list"):
+            view = self._list_view(st, v)
+            if view is not None:
+                return VSeq(view[0], view[1], "unk", tag=("row", "view", ""))
+        return None
+
     def binop(self, st, op, a, b, node, inplace=False):
         if op == "Add" and not inplace:
             va, vb = self._list_view(st, a), self._list_view(st, b)
             ca, cb = self.concrete_items(st, a), self.concrete_items(st, b)
             if va is not None and vb is not None and not (ca is not None and cb is not None):
                 (na, ea), (nb, eb) = va, vb
-                seq = VSeq(z3.simplify(na + nb), lambda k, na=na, ea=ea, eb=eb: X._ite_val(k < na, ea(k), eb(k - na)), "unk")
+
+                def el(k, na=na, ea=ea, eb=eb):
+                    x, y = ea(k), eb(k - na)
+                    m = X._ite_val(k < na, x, y)
+                    if isinstance(m, VUnk):
+                        # round 8: `[headers] + [<row> for r in records]`: rows on both sides -> a row whose length is the
+                        # selected side's (the result of the concatenation is a new list; cells stay unknown)
+                        rx, ry = self._row_of(st, x), self._row_of(st, y)
+                        if rx is not None and ry is not None:
+                            return VSeq(z3.If(k < na, rx.length, ry.length), lambda j: VUnk("cell"), "unk", tag=("row", "concat", ""))
+                    return m
+                sample = el(K)
+                seq = VSeq(z3.simplify(na + nb), el, "row" if isinstance(sample, VSeq) and sample.tag == ("row", "concat", "") else "unk")
                 return [(st, self.new_alist(st, seq))]
         fa = isinstance(a, VExt) and a.sort == "Float"
         fb = isinstance(b, VExt) and b.sort == "Float"
